@@ -15,7 +15,7 @@ PROP = dict(
         tests=[
             dict(name="TestOrderLaws", quick=(8, 1), thorough=(16, 1)),
             dict(name="TestOrderLawsSampled", quick=(4, 250), thorough=(8, 3000)),
-            dict(name="TestSortOp", quick=(8, 300), thorough=(16, 5000)),
-            dict(name="TestMerge", quick=(4, 300), thorough=(8, 4000)),
+            dict(name="TestSortOp", quick=(8, 300), thorough=(16, 2000)),
+            dict(name="TestMerge", quick=(4, 300), thorough=(8, 2500)),
         ],
 )
